@@ -73,10 +73,13 @@ def compare(nd_a, out_a, nd_b, out_b):
         if k == "calculate_total_emission_coefficient" and not emission_resolved:
             continue      # carried by species below the mole-fraction floor the solver resolves
         if k == "species_enthalpies":
+            # species the solver resolves (x > 1e-7): the enthalpy of an ion below that floor depends, through the lowering of its parent,
+            # on an electron density that is itself below the floor
             ha, hb = out_a[k], out_b[k]
             sc = np.maximum(np.abs(ha), np.max(np.abs(ha)) * 1e-6)
-            if np.max(np.abs(ha - hb) / sc) > TOL_SCALAR:
-                return f"species enthalpies differ by {float(np.max(np.abs(ha - hb) / sc)):.3e}"
+            rel = np.where(x > 1e-7, np.abs(ha - hb) / sc, 0.0)
+            if np.max(rel) > TOL_SCALAR:
+                return f"species enthalpies differ by {float(np.max(rel)):.3e}"
             continue
         a, b = out_a[k], out_b[k]
         if k == "calculate_electrical_conductivity" and xe <= XE_FLOOR:
